@@ -33,7 +33,8 @@ RULE = ("job = seed -> TLS 1.3 (all five suites, +- client certificate for "
         ' Heartbeats sized on / next to the record boundary; post-handshake auth with a client that declines (empty Certificate), with a request that does not offer certificate compression, and replay of an already answered request.'
         ' Generator protocol oracle: a read that processes control messages (post-handshake auth, KeyUpdate, tickets) yields 0/1 and then exactly one result, the data.  Illegal control also: KeyUpdate with request_update outside {0,1} sent through the API (keys in step).'
         ' Illegal control also: a NewSessionTicket sent by the client.'
-        ' Family ku_race: a KeyUpdate whose write is parked on a stalled transport while the reader of the same connection processes one or two KeyUpdates of the peer; afterwards data flows both ways, both rekey once more, secrets agree.')
+        ' Family ku_race: a KeyUpdate whose write is parked on a stalled transport while the reader of the same connection processes one or two KeyUpdates of the peer; afterwards data flows both ways, both rekey once more, secrets agree.'
+        " Family pha_race: the server application requests post-handshake authentication from a second lane while a read of the same connection is already parked; that read must accept the client's answer.")
 LEVEL_TEXT = ("Seeded exploration of bounded control/data histories with "
               "random interleaving and delivery; the key-schedule oracle is "
               "an independent HKDF written on stdlib hmac.")
@@ -49,7 +50,7 @@ PROBES = ["key_update", "key_update_requested", "simultaneous_keyupdate",
           "illegal_finished", "ku_not_aligned", "nst", "secrets_checked",
           "pha_order_checked", "resumed", "hrr",
           "heartbeat_record_boundary", "pha_declined", "pha_replay",
-          "ku_bad_value", "nst_from_client", "ku_race"]
+          "ku_bad_value", "nst_from_client", "ku_race", "pha_race"]
 COMPONENTS_REAL = ["tlslite post-handshake paths: KeyUpdate, PHA, "
                    "heartbeat, NewSessionTicket processing in readAsync"]
 COMPONENTS_STUB = ["socket", "os.urandom", "clock"]
@@ -71,6 +72,12 @@ def plan(tier, base_seed):
                     race.append({"seed": base_seed * 1000003 + 500000 +
                                  len(race), "fam": "ku_race",
                                  "race": [sid, actor, stall, npeer]})
+    # post-handshake authentication requested (writer lane) while a read of
+    # the same server connection is already parked
+    for sid in (0x1301, 0x1303):
+        for ck in ("rsa", "ecdsa"):
+            race.append({"seed": base_seed * 1000003 + 600000 + len(race),
+                         "fam": "pha_race", "race": [sid, ck]})
     jobs = jobs[:3] + race + jobs[3:]
     for j in jobs[:3]:
         j["keep"] = True
@@ -170,11 +177,77 @@ def run_ku_race(job):
             "sample": {"scenario": sc, "race": job["race"]}}
 
 
+def run_pha_race(job):
+    from sim.loop import Lane
+    seed = job["seed"]
+    sid, ck = job["race"]
+    sc = scen.suite_scenario(sid, (3, 4))
+    sc["ckey"] = ck
+    ch = kernel.Chooser(streams={})
+    sim = nodes.new_run(seed, chooser=ch, max_steps=100000, sched="first")
+    pair = nodes.Pair(sim, sc, policy="ideal")
+    viol = []
+    probes = {"pha_race": 1, "tls13": 1}
+    ctx = "[pha_race=%s]" % json.dumps(job["race"])
+
+    def v(rule, sig, msg):
+        viol.append({"rule": rule, "sig": sig, "msg": msg + " " + ctx})
+    oc, os_, st = pair.handshake()
+    if not (oc.kind == "ok" and os_.kind == "ok"):
+        raise RuntimeError("pha_race handshake failed: %r %r" % (oc.exc,
+                                                                 os_.exc))
+    C, S = pair.c, pair.s
+    if not S.conn._pha_supported:
+        return {"violations": [], "nontrivial": False, "key": "pha_na",
+                "digest": "", "faults": {}, "probes": probes, "steps": 0,
+                "order": "", "states": [], "streams": {},
+                "inconclusive": False, "sample": {}}
+    # the server application sits in a read ...
+    rd = S.start(("read",), lambda: S.conn.readAsync(None, 1))
+    while S.op is not None and S.blocked != "r":
+        S.step()
+    parked = S.op is not None
+    # ... and asks for the client's certificate from another task
+    W = Lane(S)
+    ow = W.start(("pha",), lambda: S.conn.request_post_handshake_auth())
+    while W.op is not None:
+        W.step()
+        sim._deliver()
+    # the client meets the request in a read, answers it, then sends data
+    c0 = C.start(("read0",), lambda: C.conn.readAsync(None, 0))
+    sim.run(until=lambda: C.op is None)
+    C.start(("write",), lambda: C.conn.writeAsync(b"d"))
+    st = sim.run()
+    want = creds.load("client", ck)[0]
+    got = S.conn.session.clientCertChain
+    if rd.kind != "ok" or bytes(rd.value) != b"d":
+        v("pha", "parked_reader|%s" % (type(rd.exc).__name__ if rd.kind ==
+                                       "exc" else rd.kind),
+          "a read that was already waiting when the application requested "
+          "post-handshake authentication did not accept the client's answer:"
+          " %r" % (rd.exc if rd.kind == "exc" else rd.value,))
+    elif got is None or got.x509List[0].bytes != want.x509List[0].bytes:
+        v("pha", "parked_reader|chain", "client chain not recorded")
+    key = hashlib.sha256(json.dumps(job["race"]).encode()).hexdigest()
+    h = hashlib.sha256()
+    h.update(bytes(pair.link.c2s.wire_log))
+    h.update(bytes(pair.link.s2c.wire_log))
+    h.update(json.dumps([x["sig"] for x in viol]).encode())
+    return {"violations": viol, "nontrivial": parked, "key": key,
+            "digest": h.hexdigest(), "faults": dict(sim.stats),
+            "probes": probes, "steps": sim.steps, "order": "",
+            "states": ["%s/pha_race" % sid], "streams": {},
+            "inconclusive": False,
+            "sample": {"scenario": sc, "race": job["race"]}}
+
+
 def run(job, streams=None):
     from tlslite.errors import TLSLocalAlert
     from tlslite import messages as M
     if job.get("fam") == "ku_race":
         return run_ku_race(job)
+    if job.get("fam") == "pha_race":
+        return run_pha_race(job)
     seed = job["seed"]
     ch = kernel.Chooser(seed=seed) if streams is None else \
         kernel.Chooser(streams=streams)
